@@ -166,6 +166,60 @@ def run_rounds(ctx, pt):
     judge(ctx, 'rounds/%s/%s' % ('default' if rounds is None else 'explicit', ('keyed-constant' if isinstance(kl, tuple) else 'keyed') if kl else 'unkeyed'), d, L, kl, rounds, M)
 
 
+def pts_levels(tier):
+    pts = [(d, kl, L, j) for d in (256, 224) for kl in (0, 8) for L in (64, 2) for j in (1, 2)]
+    return pts if tier == 'thorough' else [p for p in pts if p[0] == 256 or (p[1] == 8 and p[2] == 64)]
+
+
+def run_levels(ctx, pt):
+    """level confusion: a level-2 node of the 4-ary tree is as large as a leaf (4 x 16 words) and node j has the index of
+    leaf j.  The message is crafted with the reference compression so that leaf j IS the payload of level-2 node j (the
+    chaining values of leaves 4j..4j+3); only the level in the node id tells the two compressions apart.  Also across
+    two calls on one object: a 4-leaf message, then a message that starts with its four chaining values."""
+    import struct
+    d, kl, L, j = pt
+    key = keyof(kl)
+    r = SHAPE_ROUNDS
+    K = list(struct.unpack('>8Q', key.ljust(64, b'\0')))
+    V = (r << 48) | (L << 40) | (0 << 36) | (0 << 20) | (len(key) << 12) | d
+
+    def cv(i, block):
+        N = RM.Q + K + [(1 << 56) | i, V] + list(struct.unpack('>64Q', block))
+        return b''.join(struct.pack('>Q', c) for c in RM.compress(N, r))
+    nleaves = 4 * j + 4 + 1
+    leaves = [expander(512, 50 + i) for i in range(nleaves)]
+    leaves[j] = b''.join(cv(i, leaves[i]) for i in range(4 * j, 4 * j + 4))
+    M = b''.join(leaves)[:-7]
+    ctx.eq('C17/leaf-equal-to-a-node-of-the-next-level', ctx.attempt(lambda: mk(d, key, L, r)(M)), ('ok', RM.md6(d, M, key=key, L=L, r=r)))
+    o = mk(d, key, L, r)
+    P = [expander(512, 70 + i) for i in range(4)] + [b'tail']
+    ctx.eq('C17/message', ctx.attempt(o, b''.join(P)), ('ok', RM.md6(d, b''.join(P), key=key, L=L, r=r)))
+    M2 = b''.join(cv(i, P[i]) for i in range(4)) + expander(700, 9)
+    ctx.eq('C17/message-starting-with-the-chaining-values-of-the-previous-message', ctx.attempt(o, M2), ('ok', RM.md6(d, M2, key=key, L=L, r=r)))
+
+
+def pts_rchange(tier):
+    rs = (104, 103, 12, 5, 80, 168) if tier == 'thorough' else (104, 103, 5)
+    return [(d, L, kl, r1, r2) for d in (256, 224) for L in (64, 0, 1) for kl in (0, 3) for r1 in rs for r2 in rs if r1 != r2 and (tier == 'thorough' or (d == 256 or L == 64))]
+
+
+def run_rchange(ctx, pt):
+    """the round count of one object is changed between two calls (it is an attribute; None = back to the default)"""
+    d, L, kl, r1, r2 = pt
+    key = keyof(kl)
+    o = mk(d, key, L, r1)
+    M = expander(600, 3)
+    ctx.eq('C17/rounds-set-explicitly', ctx.attempt(o, M), ('ok', RM.md6(d, M, key=key, L=L, r=r1)))
+    o.rounds = r2
+    ctx.eq('C17/rounds-changed-between-calls', ctx.attempt(o, M), ('ok', RM.md6(d, M, key=key, L=L, r=r2)))
+    ctx.eq('C17/rounds-changed-between-calls', ctx.attempt(o, b'abc'), ('ok', RM.md6(d, b'abc', key=key, L=L, r=r2)))
+    # a fresh object with its default round count, then lowered / raised
+    o = mk(d, key, L, None)
+    ctx.eq('C17/default-rounds', ctx.attempt(o, b'abc'), ('ok', RM.md6(d, b'abc', key=key, L=L)))
+    o.rounds = r2
+    ctx.eq('C17/rounds-changed-between-calls', ctx.attempt(o, b'abc'), ('ok', RM.md6(d, b'abc', key=key, L=L, r=r2)))
+
+
 def selftest():
     try:
         return {'md6_reference_spec_examples_and_sensitivity': RM.selftest()}
@@ -180,6 +234,10 @@ def subchecks():
             bound='L in {0,1,2,3,64} x key length {0,1,8,63,64} x message byte length in {0..3, 383..385, 511..513, 767..769, 1023..1025, 1535..1537, 2047..2049, 5, 16, 17-, 64+, 65 leaf blocks} (quick: subset above 17 leaves / for odd key lengths) x d in 9 (4) sizes at lengths 3 and 513, 12 rounds'),
         Sub('huge', pts_huge, run_huge, engine='P', exhaustive=False, chunk=1, bound='thorough only: 4097 leaf blocks (+1 byte) in tree and hybrid mode'),
         Sub('bit-lengths', pts_bits, run_bits, engine='P', bound='every L\' mod 8 at 1, 512, 513, 2049, 2561 (thorough 8704) bytes in tree, sequential and hybrid mode; containers 7, 520 and 3000 bytes longer'),
+        Sub('tree-level-confusion', pts_levels, run_levels, engine='P',
+            bound='d in {256,224} x keyed/unkeyed x L in {64,2} x node j in {1,2}: messages of 4j+5 leaves in which leaf j equals the four chaining values of leaves 4j..4j+3 (the payload of level-2 node j, same index), and a message starting with the chaining values of the previous message of the same object'),
+        Sub('rounds-changed', pts_rchange, run_rchange, engine='H',
+            bound='one object, rounds attribute changed between two calls: every ordered pair over {104,103,5} (thorough +{12,80,168}) x d in {256,224} x L in {64,0,1} x keyed/unkeyed; also from the default round count'),
         Sub('rounds', pts_rounds, run_rounds, engine='P', bound='default round count 40+d/4 (max(80,.) with a key) for d in {8,64,128,160,384} (thorough 11 sizes) keyed, unkeyed and with all-zero / all-ff keys; explicit rounds 1..17 (subset), 32, 80, 104, 167..170, 200, 255..257, 511 (thorough 500, 1023, 1024, 4095); rounds 1, 5 (thorough 9, 40, 168) x L in {64,0,1} x key length {0,8,64} x 3-4 lengths'),
     ]
 
